@@ -139,6 +139,43 @@ def _is_unicode_punctuation(c: str) -> bool:
     )
 
 
+def _written_reference_label(match: Any) -> str | None:
+    """
+    The definition label that a reference-style link or image was written with:
+    `[text][label]`, or the link text itself for `[text][]` and `[text]`.
+    None for the inline form `[text](dest)`.
+    """
+    after_text = match.group(0)[match.end(1) - match.start() + 1 :]
+    if after_text.startswith("("):
+        return None
+    if len(after_text) > 2:
+        return cast(str, after_text[1:-1])
+    return cast(str, match.group(1))
+
+
+class CustomLink(inline.Link):
+    """
+    Link that remembers the label it was written with. Several definitions may share a
+    destination, so the label cannot be recovered from the destination afterwards.
+    """
+
+    override: bool = True
+
+    def __init__(self, match: Any) -> None:
+        super().__init__(match)
+        self.ref_label: str | None = _written_reference_label(match)
+
+
+class CustomImage(inline.Image):
+    """Image that remembers the label it was written with, see `CustomLink`."""
+
+    override: bool = True
+
+    def __init__(self, match: Any) -> None:
+        super().__init__(match)
+        self.ref_label: str | None = _written_reference_label(match)
+
+
 class CustomFootnoteDef(footnote.FootnoteDef):
     """
     Fixed FootnoteDef for a tab after the label (`[^1]:<TAB>text`).
@@ -704,6 +741,9 @@ class MarkdownNormalizer(Renderer):
         """
         if getattr(element, "dest_span", None) is not None:
             return None
+        written = getattr(element, "ref_label", None)
+        if written is not None:
+            return cast(str, written)
         assert self.root_node
         target = (element.dest, element.title)
         return next(
@@ -973,6 +1013,8 @@ def flowmark_markdown(
             # Using Marko's full extension system is tricky with our customizations so simpler
             # to do this manually.
             custom_parser = CustomParser()
+            custom_parser.add_element(CustomLink)
+            custom_parser.add_element(CustomImage)
             # Add GFM support, using our fixed Strikethrough with proper flanking rules.
             for e in GFM.elements:
                 if e is gfm_elements.Strikethrough:
